@@ -313,3 +313,5 @@ func shortAddr(a string, idx map[string]int) string {
 	}
 	return fmt.Sprintf("%q", a)
 }
+
+type banktypesMsgSend = banktypes.MsgSend
